@@ -30,11 +30,11 @@ def run(ctx):
     )
     run.trusted_base = ["CPython ast", "sa/forward.py provenance"]
     run.assumptions = ["member sources honour _composite_filters (C12.all-answers-filtered decides it for memory/filesystem)"]
-    rule_member_forward(ctx)
-    rule_dedup(ctx)
-    rule_newest(ctx)
-    rule_navigation(ctx)
-    rule_delegation(ctx)
+    ctx.do(rule_member_forward)
+    ctx.do(rule_dedup)
+    ctx.do(rule_newest)
+    ctx.do(rule_navigation)
+    ctx.do(rule_delegation)
 
 
 def rule_member_forward(ctx):
